@@ -154,7 +154,7 @@ def main():
             m = json.load(open(os.path.join(d, "meta.json")))
         except OSError:
             continue
-        title = re.sub(r"^(C\d\d|Seed C\d\d)?\s*[/,]?\s*(seed,?)?\s*[Vv]ariant [a-d]\s*[-—:]+\s*", "", m.get("title", "")).strip()
+        title = re.sub(r"^(C\d\d|Seed C\d\d)?\s*[/,]?\s*(seed,?)?\s*[Vv]ariant [a-t]\s*[-—:]+\s*", "", m.get("title", "")).strip()
         caught = []
         for p, c in m.get("checks", {}).items():
             if c.get("rc") == 1:
@@ -171,6 +171,8 @@ def main():
                                                  (" (" + FIRST_MISSED[name] + ")") if name in FIRST_MISSED else ""))
         if suite:
             rows[-1] += "  <!-- pinned suite: %d stable tests fail with this patch -->" % len(suite)
+        if m.get("slow_test_pass") is False:
+            rows[-1] += "  <!-- the slow end-to-end test fails with this patch -->"
     table = "| id | change | needs | caught by (first clauses) |\n|---|---|---|---|\n" + "\n".join(rows)
     import sys
     if "--write" in sys.argv:
